@@ -779,12 +779,26 @@ def _pwl_size_guards(prog, res):
       if isinstance(st, ast.If) and any(isinstance(x, ast.Return)
                                         for x in st.body):
         for c in ast.walk(st.test):
+          left = norm_text(c.left).replace(' ', '') if isinstance(
+              c, ast.Compare) else ''
+          # rows of the kernel, or segment heights x[1:] (one fewer)
+          off = None
+          if left == 'x.shape[0]':
+            off = 0
+          elif left.endswith('.shape[0]'):
+            nm = left[:-len('.shape[0]')]
+            for d in ast.walk(fn.node):
+              if isinstance(d, ast.Assign) and len(d.targets) == 1 and \
+                  dotted(d.targets[0]) == nm and norm_text(d.value).replace(
+                      ' ', '') == 'x[1:]' and d.lineno <= st.lineno:
+                off = 1
           if isinstance(c, ast.Compare) and len(c.ops) == 1 and \
-              norm_text(c.left).replace(' ', '') == 'x.shape[0]':
+              off is not None:
             k = const_value(c.comparators[0], None)
             if not isinstance(k, int):
               raise AnalysisError('%s: size guard `%s`' % (fn.loc(c),
                                                            norm_text(c)))
+            k += off
             op = c.ops[0]
             if isinstance(op, ast.Lt):
               thr = max(thr, k)
